@@ -404,7 +404,11 @@ func randomInterval(rng *rand.Rand, maxN int, allMarks bool) string {
 	if allMarks {
 		marks = []string{"", "", "b", "#", "bb", "##", "bbb"}
 	}
-	return marks[rng.Intn(len(marks))] + fmt.Sprint(n)
+	m := marks[rng.Intn(len(marks))]
+	if (n == 1 && strings.HasPrefix(m, "b")) || (n == 2 && m == "bbb") {
+		m = "" // (an interval below the unison: whether it exists is left open by the statements)
+	}
+	return m + fmt.Sprint(n)
 }
 
 func randomDoc(rng *rand.Rand, o GenOpt) Doc {
